@@ -22,8 +22,8 @@ Log == ndJsonDeserialize(IOEnv.VERIF_TRACE)
 
 SetOf(s) == {s[i] : i \in 1..Len(s)}
 
-VARIABLES l, tbl, ext, tgt, tgtR, pend, viol, cov, broken, cfg, cmp, restarted
-vars == <<l, tbl, ext, tgt, tgtR, pend, viol, cov, broken, cfg, cmp, restarted>>
+VARIABLES l, tbl, ext, tgt, tgtR, pend, viol, cov, broken, cfg, cmp, restarted, dead
+vars == <<l, tbl, ext, tgt, tgtR, pend, viol, cov, broken, cfg, cmp, restarted, dead>>
 If(b, S) == IF b /\ Cardinality(viol) < 100 THEN S ELSE {}
 
 \* signature of known finding KF-wildcard-sync (see RoutingTrace)
@@ -31,7 +31,7 @@ WildcardSync == \E s \in DOMAIN tbl : /\ ~ServesRoot(tbl[s]) /\ (\E h \in tbl[s]
                                        /\ Effective(tbl, s).tls
 
 Init == /\ l = 1 /\ tbl = <<>> /\ ext = <<>> /\ tgt = <<>> /\ tgtR = <<>> /\ pend = <<>> /\ viol = {} /\ cov = <<>>
-        /\ broken = FALSE /\ cfg = "" /\ cmp = "" /\ restarted = FALSE /\ TLCSet(1, 0)
+        /\ broken = FALSE /\ cfg = "" /\ cmp = "" /\ restarted = FALSE /\ dead = <<>> /\ TLCSet(1, 0)
 
 V(inv, subj, sig, detail, e) == [inv |-> inv, subj |-> subj, sig |-> sig, detail |-> ToString(detail), scn |-> e.scn, line |-> l, post |-> restarted]
 
@@ -40,13 +40,13 @@ OptOf(e) == [hosts |-> SetOf(e.hostsL), paths |-> SetOf(e.pathsL), tls |-> e.tls
 Bump(inv) == [i \in DOMAIN cov \cup {inv} |-> (IF i \in DOMAIN cov THEN cov[i] ELSE 0) + (IF i = inv THEN 1 ELSE 0)]
 Bump2(a, b) == [i \in DOMAIN cov \cup {a, b} |-> (IF i \in DOMAIN cov THEN cov[i] ELSE 0) + (IF i \in {a, b} THEN 1 ELSE 0)]
 
-Same == UNCHANGED <<tbl, ext, tgt, tgtR, pend, broken, cfg, cmp, restarted>>
+Same == UNCHANGED <<tbl, ext, tgt, tgtR, pend, broken, cfg, cmp, restarted, dead>>
 
 Step ==
   /\ l <= Len(Log)
   /\ LET e == Log[l] IN
      CASE e.ev = "reset" ->
-            /\ tbl' = <<>> /\ ext' = <<>> /\ tgt' = <<>> /\ tgtR' = <<>> /\ pend' = <<>> /\ broken' = FALSE /\ cfg' = "" /\ cmp' = "" /\ restarted' = FALSE
+            /\ tbl' = <<>> /\ ext' = <<>> /\ tgt' = <<>> /\ tgtR' = <<>> /\ pend' = <<>> /\ broken' = FALSE /\ cfg' = "" /\ cmp' = "" /\ restarted' = FALSE /\ dead' = <<>>
             /\ UNCHANGED <<viol, cov>>
        [] e.ev = "cfg_obs" ->
             \* a snapshot taken right after a command that must not have changed anything is compared with the one before it
@@ -55,9 +55,9 @@ Step ==
                                        <<"configuration snapshot changed across", cmp>>, e)})
             /\ cov' = IF cmp = "" THEN cov ELSE Bump(IF cmp = "restart" THEN "C11_cfg" ELSE "C06_a")
             /\ cfg' = e.cfg /\ cmp' = ""
-            /\ UNCHANGED <<tbl, ext, tgt, tgtR, pend, broken, restarted>>
+            /\ UNCHANGED <<tbl, ext, tgt, tgtR, pend, broken, restarted, dead>>
        [] e.ev = "cmd_call" ->
-            /\ pend' = e /\ UNCHANGED <<tbl, ext, tgt, tgtR, viol, cov, broken, cfg, cmp, restarted>>
+            /\ pend' = e /\ UNCHANGED <<tbl, ext, tgt, tgtR, viol, cov, broken, cfg, cmp, restarted, dead>>
        [] e.ev = "cmd_ret" ->
             LET c == pend
                 o == OptOf(c)
@@ -82,6 +82,9 @@ Step ==
                /\ cmp' = IF c.kind = "restart" THEN "restart" ELSE IF ~ok THEN "failed " \o c.kind ELSE ""
                /\ broken' = (broken \/ (c.kind = "restart" /\ ~good))
                /\ restarted' = (restarted \/ c.kind = "restart")
+               \* targets of a deploy that was rejected must not be probed after it returned (C06 / C17)
+               /\ dead' = IF ~ok /\ c.kind \in {"deploy", "rollout_deploy"}
+                          THEN [u \in SetOf(c.targets) |-> e.t] @@ dead ELSE dead
                /\ UNCHANGED <<pend, cfg>>
        [] e.ev \in {"probe", "cert"} /\ broken -> Same /\ UNCHANGED <<viol, cov>>
        [] e.ev = "probe" ->
@@ -111,6 +114,11 @@ Step ==
             IN /\ viol' = viol \cup If(e.ok # want, {V("C16_cert", e.sni, "", <<"certificate served", e.ok, "expected", want>>, e)})
                /\ cov' = Bump("C16_cert")
                /\ Same
+       [] e.ev = "tg_probe" ->
+            /\ viol' = viol \cup If(e.tg \in DOMAIN dead /\ e.t > dead[e.tg],
+                                    {V("C06_b", e.tg, "", <<"rejected target still probed at", e.t, "command returned at", dead[e.tg]>>, e)})
+            /\ cov' = IF e.tg \in DOMAIN dead THEN Bump("C06_b") ELSE cov
+            /\ Same
        [] e.ev = "panic" ->
             /\ viol' = viol \cup {V("C18_panic", e.c, "", <<"panic", e.what>>, e)} /\ UNCHANGED cov /\ Same
        [] e.ev = "harness_error" ->
